@@ -116,4 +116,90 @@ theorem genbankParser_wp (reg : Registry) (s : PS) (hs : Sorted s.rest.length s.
       have hrl := recordLoop_safeS (L := s.rest.length) l.length l.depth h0 (by omega) hlen
       repeat wps_step
 
+/-- the scan loop: every record is parsed from a fresh state on what the previous one left -/
+theorem parseAll_ne_none : ∀ k (reg : Registry) (input : Bytes) (acc : List Record),
+    input.length < 10 ^ 9 → parseAll reg k input acc ≠ none
+  | 0, _, _, _, _ => by simp [parseAll]
+  | k + 1, reg, input, acc, hlen => by
+    unfold parseAll
+    split
+    · simp
+    · have h := genbankParser_wp reg ⟨input, []⟩ trivial hlen
+      unfold WP at h
+      rcases hrun : (genbankParser reg).run' ⟨input, []⟩ with ⟨r, s'⟩
+      rw [hrun] at h
+      rcases r with e | ⟨rec, reg'⟩
+      · cases e
+        · simp
+        · exact absurd rfl h.1
+      · dsimp only
+        exact parseAll_ne_none k reg' s'.rest (rec :: acc) (Nat.lt_of_le_of_lt h.2.2 hlen)
+
+/-! ### internal consistency of an accepted record -/
+
+/-- a record is returned only if the LOCUS line was read, its length is not negative, and the
+ORIGIN block read has exactly that many residues — or none at all next to a CONTIG line -/
+theorem genbankParser_length (reg : Registry) (s : PS) (r : Record) (reg' : Registry) (s' : PS)
+    (h : (genbankParser reg).run' s = (.ok (r, reg'), s')) :
+    ∃ l s1, locusParser.run' s = (.ok l, s1) ∧ 0 ≤ l.length ∧
+      (r.origin.len = l.length ∨ (r.origin.len = 0 ∧ r.fields.contigAcc ≠ [])) := by
+  unfold genbankParser at h
+  rw [run_bind] at h
+  rcases hl : locusParser.run' s with ⟨r1, s1⟩
+  rw [hl] at h
+  rcases r1 with e | l
+  · cases h
+  · refine ⟨l, s1, rfl, ?_⟩
+    dsimp only at h
+    rw [run_bind, run_clear] at h
+    dsimp only at h
+    split at h
+    · rw [run_bind, run_fail] at h; cases h
+    · rename_i hc
+      split at h
+      · rw [run_bind, run_fail] at h; cases h
+      · split at h
+        · rw [run_fail] at h; cases h
+        · rw [run_bind, run_getS] at h
+          dsimp only at h
+          rw [run_bind] at h
+          generalize (recordLoop _ _ _ _).run' _ = rr at h
+          rcases rr with ⟨r2, s2⟩
+          rcases r2 with e | ⟨f, tab, org, rg⟩
+          · cases h
+          · dsimp only at h
+            split at h
+            · rw [run_bind, run_fail] at h; cases h
+            · rename_i hm
+              rw [run_pure] at h
+              cases h
+              refine ⟨by omega, ?_⟩
+              dsimp only
+              by_cases h1 : org.len = l.length
+              · exact Or.inl h1
+              · right
+                by_cases h2 : org.len = 0
+                · refine ⟨h2, ?_⟩
+                  intro h3
+                  apply hm
+                  exact ⟨h1, Or.inr (by rw [h3]; rfl)⟩
+                · exact absurd ⟨h1, Or.inl h2⟩ hm
+
+/-- every sorted state satisfies the S-invariant for a large enough bound -/
+theorem exists_bound (s : PS) (hs : Sorted s.rest.length s.stk) : ∃ L, Fr L [] 0 s := by
+  have key : ∀ (st : List Bytes) (n : Nat), ∃ L, n ≤ L ∧ ∀ f ∈ st, f.length ≤ L := by
+    intro st
+    induction st with
+    | nil => intro n; exact ⟨n, Nat.le_refl _, fun _ hf => nomatch hf⟩
+    | cons g st ih =>
+      intro n
+      obtain ⟨L, h1, h2⟩ := ih (max n g.length)
+      refine ⟨L, by omega, ?_⟩
+      intro f hf
+      rcases List.mem_cons.mp hf with rfl | hf
+      · omega
+      · exact h2 f hf
+  obtain ⟨L, h1, h2⟩ := key s.stk s.rest.length
+  exact ⟨L, Fr.mk0 h2 h1 hs⟩
+
 end Gts.GenBank
